@@ -603,11 +603,11 @@ _DOCS = {}
 
 
 def _validated(schema, program, config):
-    """parse + validate once per (document, configuration); the runs then pass
+    """parse + validate once per (document, schema layout); the runs then pass
     the validated Document with validators=[] (validation is schedule-independent
     and dominates the run time otherwise)"""
     text = doc_of(program)
-    key = (config, program.get("layout", "distinct"), text)
+    key = (program.get("layout", "distinct"), text)   # the schemas of the configurations differ in resolvers only
     if key not in _DOCS:
         if len(_DOCS) > 2000:
             _DOCS.clear()
